@@ -10,14 +10,15 @@
     [Recompute] (the graph recomputes the fold), [Unlink] / [Relink] (the fold leaves /
     re-enters the graph).  [admissible] is the engine's discipline (every write to a linked
     input is notified before the fold's next recompute; notifications and recomputes only
-    while linked; several writes per pass and repeated notifications allowed).
+    while linked; several writes per pass and repeated notifications allowed; writes to nodes
+    that are not inputs of the fold do not matter).
     [update_contract] is the documented contract of the caller's [update].  The boolean
     [reset_on_unlink] selects the code as it is ([false]) or the planned repair ([true]).
 
     FULL STATEMENT of the UnorderedArrayFold part (for every admissible history, after every
     recompute, value = full fold of the current inputs):
 
-      forall st0 h, admissible false [] (h ++ [Recompute]) ->
+      forall st0 h, admissible inputs false [] (h ++ [Recompute]) ->
         exists w, run initial fold update reset_on_unlink inputs (init zeroA initial inputs st0)
                       (h ++ [Recompute]) = Ok w /\
                   value (w_f w) = full initial fold inputs (w_store w)
@@ -35,8 +36,8 @@ Theorem C14_uaf :
          (inputs : list nat),
     update_contract zeroA initial fold update ->
     forall (st0 : store) (h : list ev),
-      admissible false [] (h ++ [Recompute]) ->
-      quiet false [] false (h ++ [Recompute]) ->
+      admissible inputs false [] (h ++ [Recompute]) ->
+      quiet inputs false [] false (h ++ [Recompute]) ->
       exists w, run initial fold update false inputs (init zeroA initial inputs st0) (h ++ [Recompute]) = Ok w /\
                 value (w_f w) = full initial fold inputs (w_store w).
 Proof. exact (@uaf_as_is). Qed.
@@ -48,7 +49,7 @@ Print Assumptions C14_uaf.
 Theorem C14_uaf_refuted :
   exists (st0 : store (A:=Z)) (h : list (ev (A:=Z))),
     update_contract (A:=Z) (B:=Z) 0 0 Z.add (fun acc o n => acc - o + n) /\
-    admissible false [] (h ++ [Recompute]) /\
+    admissible [0%nat; 1%nat] false [] (h ++ [Recompute]) /\
     exists w, run 0 Z.add (fun acc o n => acc - o + n) false [0%nat; 1%nat]
                   (init 0 0 [0%nat; 1%nat] st0) (h ++ [Recompute]) = Ok w /\
               value (w_f w) = 3 /\ full 0 Z.add [0%nat; 1%nat] (w_store w) = 12.
@@ -63,7 +64,7 @@ Theorem C14_uaf_fixed :
          (inputs : list nat),
     update_contract zeroA initial fold update ->
     forall (st0 : store) (h : list ev),
-      admissible false [] (h ++ [Recompute]) ->
+      admissible inputs false [] (h ++ [Recompute]) ->
       exists w, run initial fold update true inputs (init zeroA initial inputs st0) (h ++ [Recompute]) = Ok w /\
                 value (w_f w) = full initial fold inputs (w_store w).
 Proof. exact (@uaf_fixed). Qed.
